@@ -276,6 +276,7 @@ func (r *Run) run() {
 	r.s = NewSched(r.plan.Seed^0xa0761d6478bd642f, replay, maxSteps)
 	r.s.mainPath = r.path
 	r.s.Windows = r.plan.Profile == "conc"
+	r.s.YieldAtRUnlock = r.plan.Profile == "snap"
 	r.st = NewStores()
 	if r.plan.Listeners {
 		registerListeners(r, StDepts, boltz.EntityStore[*Dept](r.st.Depts))
@@ -969,7 +970,20 @@ func (r *Run) execOp(a *attempt, ctx boltz.MutateContext, i int, op Op) error {
 		})
 		return nil
 	}
-	res, pv := safeExecOp(r.st, ctx, op)
+	var res execResult
+	var pv any
+	if op.Nested {
+		// the documented join path: Db.Update on a context that is already bound to a transaction just runs fn
+		nerr := r.db.Update(ctx, func(ctx boltz.MutateContext) error {
+			res, pv = safeExecOp(r.st, ctx, op)
+			return res.err
+		})
+		if pv == nil && res.err == nil && nerr != nil {
+			res.err = nerr
+		}
+	} else {
+		res, pv = safeExecOp(r.st, ctx, op)
+	}
 	r.mu.Lock()
 	fired := a.firedOp
 	r.mu.Unlock()
